@@ -110,6 +110,14 @@ def shape_xml(kind, k, attrs, tf, extra='', G=None, rnd=None):
     i = ' id="n%d"%s%s' % (k, tf, extra)
     if kind == 'path':
         return '<path%s d="%s"/>' % (i, PATH_D[attrs['d']])
+    if rnd is not None and rnd.random() < 0.5 and kind in ('line', 'rect', 'circle', 'ellipse'):
+        # positions that are 0 may be left out: the specification's default ("if the attribute is not specified, the effect is as if a value of 0 were specified")
+        pos = {'line': ('x1', 'y1', 'x2', 'y2'), 'rect': ('x', 'y'), 'circle': ('cx', 'cy'), 'ellipse': ('cx', 'cy')}[kind]
+        names = {'w': 'width', 'h': 'height'}
+        order = {'line': ('x1', 'y1', 'x2', 'y2'), 'rect': ('x', 'y', 'w', 'h'), 'circle': ('cx', 'cy', 'r'), 'ellipse': ('cx', 'cy', 'rx', 'ry')}[kind]
+        if any(attrs[a] == 0 for a in pos):
+            body = ''.join(' %s="%d"' % (names.get(a, a), attrs[a]) for a in order if not (a in pos and attrs[a] == 0))
+            return '<%s%s%s/>' % (kind, i, body)
     if kind == 'line':
         return '<line%s x1="%d" y1="%d" x2="%d" y2="%d"/>' % (i, attrs['x1'], attrs['y1'], attrs['x2'], attrs['y2'])
     if kind in ('polyline', 'polygon'):
